@@ -69,6 +69,13 @@ func killChildMain() {
 		os.Exit(3)
 	}
 	os.WriteFile(filepath.Join(*flagKillDir, "submit-returned"), []byte(id.String()), 0o644)
+	// the same for Delete: a kill in the middle must leave the complete plan or nothing, never a hollowed-out plan
+	os.WriteFile(filepath.Join(*flagKillDir, "delete-begins"), []byte("x"), 0o644)
+	if err := v.Delete(ctx, id); err != nil {
+		fmt.Println("KILLCHILD delete failed:", err)
+		os.Exit(3)
+	}
+	os.WriteFile(filepath.Join(*flagKillDir, "delete-returned"), []byte("x"), 0o644)
 	v.Close(ctx)
 }
 
@@ -149,8 +156,10 @@ func inspectStore(dir string) (state string, problem string) {
 	return "", fmt.Sprintf("%d plans are listed after one Submit: %v", len(entries), ids)
 }
 
-func killItems(tier string) []WorkItem {
-	return []WorkItem{{Prop: "C14", Kind: "enum", Enum: "kill", Shard: 0, NShards: 1}}
+func killItems(tier string) []WorkItem { return killItemsFor("C14") }
+
+func killItemsFor(prop string) []WorkItem {
+	return []WorkItem{{Prop: prop, Kind: "enum", Enum: "kill", Shard: 0, NShards: 1}}
 }
 
 // enumKill measures the write-class system calls of the submitting thread in a dry run and then kills at every one.
@@ -175,8 +184,12 @@ func enumKill(env *EnumEnv, it *WorkItem) *EnumResult {
 		res.Notes = append(res.Notes, fmt.Sprintf("kill enumeration skipped: the dry run under strace failed (%v): %s", err, tail(string(out), 300)))
 		return res
 	}
-	if st, p := inspectStore(dry); st != "complete" {
-		res.Found = append(res.Found, &EnumFound{V: Violation{Property: "C14", Rule: "submitted-plan-not-stored", Signature: "dry-run", Msg: "uninterrupted Submit on a file-backed store: " + st + " " + p}, Input: map[string]any{"kill": 0}})
+	prop := it.Prop
+	if prop == "" {
+		prop = "C14"
+	}
+	if st, p := inspectStore(dry); st != "absent" {
+		res.Found = append(res.Found, &EnumFound{V: Violation{Property: prop, Rule: "deleted-plan-not-removed", Signature: "dry-run", Msg: "uninterrupted Submit and Delete on a file-backed store: " + st + " " + p}, Input: map[string]any{"kill": 0}})
 		return res
 	}
 	perThread := map[string]int{}
@@ -227,7 +240,7 @@ func enumKill(env *EnumEnv, it *WorkItem) *EnumResult {
 		return res
 	}
 	total := tcs[0].n
-	res.Notes = append(res.Notes, fmt.Sprintf("dry run: %d write-class system calls (%s) on the submitting thread, %d of them after Submit began; kill injected at every one of them", total, killSyscalls, inSubmit[tcs[0].tid]))
+	res.Notes = append(res.Notes, fmt.Sprintf("dry run: %d write-class system calls (%s) on the submitting thread, %d of them after Submit began (Submit, then Delete of the same plan); kill injected at every one of them", total, killSyscalls, inSubmit[tcs[0].tid]))
 	outcomes := map[string]int{}
 	for k := 1; k <= total; k++ {
 		dir := filepath.Join(base, "k"+strconv.Itoa(k))
@@ -237,15 +250,33 @@ func enumKill(env *EnumEnv, it *WorkItem) *EnumResult {
 		if _, err := os.Stat(filepath.Join(dir, "submit-returned")); err == nil {
 			returned = true
 		}
+		deleting, deleted := false, false
+		if _, err := os.Stat(filepath.Join(dir, "delete-begins")); err == nil {
+			deleting = true
+		}
+		if _, err := os.Stat(filepath.Join(dir, "delete-returned")); err == nil {
+			deleted = true
+		}
 		st, problem := inspectStore(dir)
 		res.Evaluations++
 		if problem != "" {
-			res.Found = append(res.Found, &EnumFound{V: Violation{Property: "C14", Rule: "killed-submit-left-partial-plan", Signature: "sqlite:kill", Msg: fmt.Sprintf("process killed at write-class system call %d of %d: %s", k, total, problem)}, Input: map[string]any{"kill": k}})
+			rule := "killed-submit-left-partial-plan"
+			if deleting {
+				rule = "killed-delete-left-partial-plan"
+			}
+			res.Found = append(res.Found, &EnumFound{V: Violation{Property: prop, Rule: rule, Signature: "sqlite:kill", Msg: fmt.Sprintf("process killed at write-class system call %d of %d: %s", k, total, problem)}, Input: map[string]any{"kill": k}})
 			break
 		}
-		if returned && st != "complete" {
-			res.Found = append(res.Found, &EnumFound{V: Violation{Property: "C14", Rule: "acknowledged-submit-lost", Signature: "sqlite:kill", Msg: fmt.Sprintf("Submit had returned before the kill at call %d but the plan is %s after re-opening", k, st)}, Input: map[string]any{"kill": k}})
+		if returned && !deleting && st != "complete" {
+			res.Found = append(res.Found, &EnumFound{V: Violation{Property: prop, Rule: "acknowledged-submit-lost", Signature: "sqlite:kill", Msg: fmt.Sprintf("Submit had returned before the kill at call %d but the plan is %s after re-opening", k, st)}, Input: map[string]any{"kill": k}})
 			break
+		}
+		if deleted && st != "absent" {
+			res.Found = append(res.Found, &EnumFound{V: Violation{Property: prop, Rule: "acknowledged-delete-lost", Signature: "sqlite:kill", Msg: fmt.Sprintf("Delete had returned before the kill at call %d but the plan is %s after re-opening", k, st)}, Input: map[string]any{"kill": k}})
+			break
+		}
+		if deleting {
+			st += "(delete)"
 		}
 		outcomes[st]++
 		os.RemoveAll(dir)
@@ -255,7 +286,7 @@ func enumKill(env *EnumEnv, it *WorkItem) *EnumResult {
 		res.Notes = append(res.Notes, fmt.Sprintf("WARNING: only the outcome(s) %v were observed over %d kill points", outcomes, total))
 	}
 	res.Notes = append(res.Notes, fmt.Sprintf("kill enumeration: %d kill points, outcomes after re-opening the store: %v", total, outcomes))
-	res.Samples = append(res.Samples, fmt.Sprintf("kill at every k in 1..%d of a Submit of %q on a file-backed store: outcomes after re-opening %v", total, killPlan().Name, outcomes))
+	res.Samples = append(res.Samples, fmt.Sprintf("kill at every k in 1..%d of a Submit and a Delete of %q on a file-backed store: outcomes after re-opening %v", total, killPlan().Name, outcomes))
 	return res
 }
 
@@ -264,4 +295,23 @@ func tail(s string, n int) string {
 		return s[len(s)-n:]
 	}
 	return s
+}
+
+// replayKill re-runs one kill point (the k-th write-class system call of the storage thread) and inspects the store.
+func replayKill(prop string, k int) []*Violation {
+	base := filepath.Join(*flagVerifDir, ".work", fmt.Sprintf("killreplay-%d", os.Getpid()))
+	os.RemoveAll(base)
+	os.MkdirAll(base, 0o755)
+	defer os.RemoveAll(base)
+	if k > 0 {
+		runKillChild(base, "-o", "/dev/null", "-e", "trace="+killSyscalls, "-e", "inject="+killSyscalls+":signal=SIGKILL:when="+strconv.Itoa(k))
+	} else {
+		runKillChild(base, "-o", "/dev/null", "-e", "trace="+killSyscalls)
+	}
+	st, problem := inspectStore(base)
+	fmt.Printf("kill at write-class system call %d: store after re-opening: %s %s\n", k, st, problem)
+	if problem != "" {
+		return []*Violation{{Property: prop, Rule: "killed-operation-left-partial-plan", Signature: "sqlite:kill", Msg: problem}}
+	}
+	return nil
 }
